@@ -409,7 +409,7 @@ func (o Op) Bytes() []byte {
 		si := &meta.StreamInfo{Name: o.Name, Interval: time.Duration(o.Ns[0]), Delay: time.Duration(o.Ns[1]),
 			SrcMst: &meta.StreamMeasurementInfo{Name: o.Mst, Database: o.DB, RetentionPolicy: o.RP},
 			DesMst: &meta.StreamMeasurementInfo{Name: o.SS[2], Database: o.SS[0], RetentionPolicy: o.SS[1]},
-			Dims:   o.SS[3:]}
+			Dims:   o.SS[3:], Cond: o.S, IsSelectAll: o.N == 1}
 		for _, f := range o.F {
 			cn := callNames[int(f.T)%len(callNames)]
 			si.Calls = append(si.Calls, &meta.StreamCall{Call: cn, Field: f.N, Alias: cn + "_" + f.N})
